@@ -22,7 +22,9 @@ TRUNC = "→"  # delta's default truncation symbol
 CONTENTS_QUICK = [b"x", b"", b"- y", b"\tt\tu", b"\xc3\xa9\xe6\xbc\xa2 z"]
 LONG = b"1234567890123456789012345678901234567890"
 CONTENTS_FULL = [b"x", b"", b"- y", b"-- y", b"++ y", b"@@ q", b"\\ w", b"\tt\tu",
-                 b"\xc3\xa9\xe6\xbc\xa2 z", b"1234567890123456789012345678901234567890", b"x "]
+                 b"\xc3\xa9\xe6\xbc\xa2 z", b"1234567890123456789012345678901234567890", b"x ",
+                 # a line that looks like a submodule commit line; text starting with a combining character
+                 b"Subproject commit zz", b"\xcc\x81x\xe0\xa4\xbe"]
 
 
 def expected_text(line, n_parents, ocfg, in_conflict=False):
@@ -137,6 +139,17 @@ class FifoOracle(object):
                         "header-before-lines", "a %s header row %r is written while %d earlier "
                         "hunk line(s) are still pending (first: %r)"
                         % (k, info.text, len(q) - own, q[0][1][0]),
+                        expected=q[0][1][0], observed=info.text)
+                blanks = 0
+            elif k == "other" and info.text.startswith("commit " + producers.H40A.decode()):
+                # a commit line passed through unstyled (commit-style raw) is still the next commit's header
+                while q and blanks > 0 and self._is_empty(q[0]):
+                    q.pop(0)
+                    blanks -= 1
+                if q:
+                    raise ViolationError(
+                        "header-before-lines", "the next commit's line %r is written while %d earlier "
+                        "hunk line(s) are still pending (first: %r)" % (info.text, len(q), q[0][1][0]),
                         expected=q[0][1][0], observed=info.text)
                 blanks = 0
             elif k == "other":
@@ -378,7 +391,7 @@ class SearchB(Problem):
         self.ocfg = ocfg
         self.oracle = FifoOracle(ocfg)
         self.max_sections = max_sections
-        self.kinds = kinds or producers.SECTION_KINDS
+        self.kinds = kinds or (producers.SECTION_KINDS + (["commit"] if src == "git" else []))
         self.bodies = bodies or producers.BODY_KINDS
         self.with_commit = with_commit
         self.src = src
@@ -473,7 +486,8 @@ DIMS = [
                         ("file-ln", {"hunk-header-style": "file line-number 110"}),
                         ("omit-cf", {"hunk-header-style": "omit-code-fragment line-number 110"}),
                         ("nodeco", {"hunk-header-decoration-style": "none"})]),
-    Dim("commit", [("reserved", {}), ("box-ul", {"commit-decoration-style": "119 box ul"})]),
+    Dim("commit", [("reserved", {}), ("box-ul", {"commit-decoration-style": "119 box ul"}),
+                   ("raw", {"commit-style": "raw", "commit-decoration-style": "none"})]),
     Dim("navigate", [("off", {}), ("on", {"navigate": True})]),
     Dim("hyperlinks", [("off", {}), ("on", {"hyperlinks": True})]),
     Dim("width", [("40", {}), ("7", {"width": "7"}), ("variable", {"width": "variable"})]),
